@@ -56,6 +56,28 @@ def main(tier):
                 if not e["prefix"] or (not e["cut"] and e["delivered"] != e["L"]):
                     v.violation(dict(check="compfs-trace", clause="CompleteOnIntactStream" if e["prefix"] else "PrefixOfPlain", profile=prof),
                                 dict(engine="compfs", summary=e))
+    # the same trace specification on decoder events this framework's drivers did not produce: the repository's own
+    # fail-safe tests and `mlar repair` runs (production constants), recorded through the hooks' trace sink
+    from lib.suitetrace import compfs_trace
+    nsuite = dict(readers=0, events=0)
+    for tag, args in (("c05-suite-lib", ["-p", "mla", "--lib", "failsafe"]),
+                      ("c05-suite-cli", ["-p", "mlar", "--test", "integration", "repair"])):
+        sdir, sinfo = record_suite(tag, args, min_files=1, timeout=2400)
+        stp = os.path.join(wdc, tag + ".ndjson")
+        sn = compfs_trace(sdir, stp)
+        if sn["readers"] == 0:
+            continue
+        acc, tinfo, tres = validate_trace("TraceCompFailSafe", "TraceCompFailSafe.cfg", stp, tag, timeout=1800, heap="8g")
+        if not tinfo or tinfo.get("matched") != tinfo.get("len"):
+            raise ToolError(f"TraceCompFailSafe did not consume {stp}: {tres.error_text[:500]}")
+        for b in tinfo.get("bad", []):
+            for c in sorted(b["clauses"]):
+                v.violation(dict(check="compfs-trace", clause=c, profile="suite"), dict(engine="suite", trace=stp, line=b["line"], event=b["ev"]))
+        nsuite["readers"] += sn["readers"]
+        nsuite["events"] += sn["events"]
+    if nsuite["readers"] < 3 or nsuite["events"] < 1000:
+        raise ToolError(f"suite traces of the fail-safe decompressor are too thin to mean anything: {nsuite}")
+    ev["suite_decoder_traces"] = nsuite
     res, scens = scenarios_from_writer("Writer.scen.cfg", "c05-scen")
     res2, scens2 = scenarios_from_writer("Writer.many.cfg", "c05-many")
     chosen = pick(scens, 16 if tier == "quick" else 150, seed() + 5) + pick(scens2, 4 if tier == "quick" else 30, seed())
@@ -89,7 +111,7 @@ def main(tier):
     cov = dict(many_files=ev.get("many_files"), states=sum(t["distinct"] for t in ev["tlc"]) + res.distinct + ev.get("trace_states", 0),
                transitions=sum(t["generated"] for t in ev["tlc"]) + res.generated,
                traces_validated_against_impl=ev.get("traces", 0) + ev.get("decoder_runs", 0), repairs_validated=ev.get("repairs", 0),
-               decoder_events_validated=ev.get("decoder_events", 0),
+               decoder_events_validated=ev.get("decoder_events", 0), suite_decoder_traces=ev.get("suite_decoder_traces"),
                archives=ev.get("scenarios", 0), tlc_runs=ev["tlc"],
                samples=[dict(labels=c["labels"]) for c in chosen[:2]] or ["none"],
                rule="CompFailSafe model checked by TLC (ZeroOnlyAtEnd, CompleteOnIntact, Sound over a nondeterministic "
